@@ -10,15 +10,20 @@
 
    State = tree of positions that are pending (awaitable outstanding), running (children being
    gathered) or done.  A step = the scheduler picks ANY pending position; its awaitable completes
-   and the continuation runs to quiescence (this is the granularity of an event loop in which
-   awaitables complete one at a time):
+   and the continuation runs to quiescence (the granularity of an event loop in which awaitables
+   complete one at a time):
    - the children of the new value are started left to right; a synchronous failure of a child
-     at a non-null position stops the loop: later children are never started, earlier awaitable
-     children are ORPHANED (settle_in_background: nobody waits for them, their outcome is never
-     observed in the response);
+     at a non-null position stops the loop: later children are never started, earlier unfinished
+     children are ABANDONED (settle_in_background): nobody waits for them, they keep running in the
+     background below the position that the failure nulls, whatever they report is dropped by
+     CollectedErrors (without a running event loop - the synchronous part of execute() called
+     outside a loop - they are closed instead and never run);
    - a failure at a non-null position propagates to the parent; a parent that is gathering its
      children CANCELS the other pending children (gather_with_cancel) and fails itself; the first
-     nullable position on the way becomes null and records (nulled position, path of the error).
+     nullable position on the way becomes null and records (nulled position, path of the error);
+   - a done position keeps the background work below it ([SDone k d bg]); a serial node
+     (execute_fields_serially) starts its next field only when the previous one is done AND the
+     background work below it has settled.
    Definitions only; proofs are in Exec/AsyncProps.v. *)
 From GV Require Import Base.Prelude Exec.ErrorsAlg.
 
@@ -39,43 +44,48 @@ Definition kids (n : node) : list node :=
 (* response data; [DNull true] = null placed by error handling, [DNull false] = a null value *)
 Inductive data := DNull (err : bool) | DLeaf (v : N) | DKids (kd : kind) (fs : list (N * data)).
 
-(* positions are relative to the node a function works on: [] is that node itself *)
-Inductive ev :=
-| ECall (p : pos)                  (* resolver at p invoked *)
-| EDone (p : pos)                  (* the awaitable of p completed (a scheduler step) *)
-| EErr (at_ : pos) (origin : pos)  (* CollectedErrors.add: position nulled, path of the error *)
-| ECancel (p : pos)                (* pending awaitable at p cancelled by gather_with_cancel *)
-| EOrphan (p : pos).               (* pending awaitable at p left to settle in the background *)
+(* events; positions are relative to the node a function works on: [] is that node itself.
+   TCall: resolver at p invoked.  TDone: the awaitable of p completed (a scheduler step).
+   TErr: CollectedErrors.add - position p nulled, o = path of the error.
+   TCancel: pending awaitable at p cancelled by gather_with_cancel.
+   TOrphan: pending awaitable at p abandoned after a synchronous failure of a later sibling.
+   bg = true: the event happens in background work (below an already nulled position); a
+   background TErr is an error that CollectedErrors drops. *)
+Inductive tag := TCall | TDone | TErr | TCancel | TOrphan.
+Inductive ev := Ev (t : tag) (bg : bool) (p o : pos).
+
+Definition ECall (p : pos) : ev := Ev TCall false p [].
+Definition EDone (p : pos) : ev := Ev TDone false p [].
+Definition EErr (a o : pos) : ev := Ev TErr false a o.
+Definition ECancel (p : pos) : ev := Ev TCancel false p [].
+Definition EOrphan (p : pos) : ev := Ev TOrphan false p [].
 
 Definition ev_shift (k : N) (e : ev) : ev :=
   match e with
-  | ECall p => ECall (k :: p)
-  | EDone p => EDone (k :: p)
-  | EErr a o => EErr (k :: a) (k :: o)
-  | ECancel p => ECancel (k :: p)
-  | EOrphan p => EOrphan (k :: p)
+  | Ev TErr b p o => Ev TErr b (k :: p) (k :: o)
+  | Ev t b p o => Ev t b (k :: p) o
   end.
 Definition shift (k : N) (evs : list ev) : list ev := map (ev_shift k) evs.
+Definition to_bg (e : ev) : ev := match e with Ev t _ p o => Ev t true p o end.
 
 Inductive st :=
 | SPend (n : node)                                                   (* awaitable outstanding *)
-| SDone (k : N) (d : data)
+| SDone (k : N) (d : data) (bg : list st)                            (* bg: background work below, by child *)
 | SRun (k : N) (nn : bool) (kd : kind) (sts : list st) (rest : list node).
   (* children started so far; [rest] = not yet started (non-empty only for KSer) *)
 
 Definition skey (s : st) : N :=
-  match s with SPend n => key n | SDone k _ => k | SRun k _ _ _ _ => k end.
-Definition is_done (s : st) : bool := match s with SDone _ _ => true | _ => false end.
+  match s with SPend n => key n | SDone k _ _ => k | SRun k _ _ _ _ => k end.
+Definition is_done (s : st) : bool := match s with SDone _ _ _ => true | _ => false end.
 Definition all_done (l : list st) : bool := forallb is_done l.
 Definition sdata (s : st) : N * data :=
-  match s with SDone k d => (k, d) | _ => (skey s, DNull false) end.
+  match s with SDone k d _ => (k, d) | _ => (skey s, DNull false) end.
 
-(* pending awaitables of a state, relative to the state's own position *)
+(* pending awaitables of a state (live and background), relative to the state's own position *)
 Fixpoint pend (s : st) : list pos :=
   match s with
   | SPend _ => [[]]
-  | SDone _ _ => []
-  | SRun _ _ _ sts _ =>
+  | SDone _ _ sts | SRun _ _ _ sts _ =>
       (fix go (l : list st) : list pos :=
          match l with
          | [] => []
@@ -85,38 +95,74 @@ Fixpoint pend (s : st) : list pos :=
 Definition pend_list (l : list st) : list pos :=
   flat_map (fun c => map (cons (skey c)) (pend c)) l.
 
-Inductive res := ROk (s : st) | RFail (origin : pos).
-Inductive kres := KOk (sts : list st) (rest : list node) | KFail (origin : pos).
+(* pending awaitables somebody is waiting for *)
+Fixpoint live (s : st) : list pos :=
+  match s with
+  | SPend _ => [[]]
+  | SDone _ _ _ => []
+  | SRun _ _ _ sts _ =>
+      (fix go (l : list st) : list pos :=
+         match l with
+         | [] => []
+         | c :: r => map (cons (skey c)) (live c) ++ go r
+         end) sts
+  end.
+Definition live_list (l : list st) : list pos :=
+  flat_map (fun c => map (cons (skey c)) (live c)) l.
 
-(* handle_field_error at a position with nullability nn, for an error with path e *)
-Definition handle (nn : bool) (k : N) (e : pos) (evs : list ev) : res * list ev :=
-  if nn then (RFail e, evs) else (ROk (SDone k (DNull true)), evs ++ [EErr [] e]).
+(* what remains of a cancelled subtree: the background work below it *)
+Fixpoint skel (s : st) : st :=
+  match s with
+  | SPend n => SDone (key n) (DNull true) []
+  | SDone k d bg => SDone k d bg
+  | SRun k _ _ sts _ => SDone k (DNull true) (map skel sts)
+  end.
 
-(* serial fields wait for the previous one *)
+(* done, and nothing left below (background work settled) *)
+Definition settled (s : st) : bool :=
+  is_done s && match pend s with [] => true | _ => false end.
+
+Inductive res := ROk (s : st) | RFail (origin : pos) (zs : list st).
+Inductive kres := KOk (sts : list st) (rest : list node) | KFail (origin : pos) (zs : list st).
+
+(* handle_field_error at a position with nullability nn, for an error with path e;
+   zs = background work below the position *)
+Definition handle (nn : bool) (k : N) (e : pos) (zs : list st) (evs : list ev) : res * list ev :=
+  if nn then (RFail e zs, evs) else (ROk (SDone k (DNull true) zs), evs ++ [EErr [] e]).
+
+(* serial fields wait for the previous one and the background work below it *)
 Definition blocked (kd : kind) (acc : list st) : bool :=
-  match kd with KSer => negb (all_done acc) | _ => false end.
+  match kd with KSer => negb (forallb settled acc) | _ => false end.
 
 Definition pack (k : N) (nn : bool) (kd : kind) (sts : list st) (rest : list node) : st :=
   match rest with
-  | [] => if all_done sts then SDone k (DKids kd (map sdata sts)) else SRun k nn kd sts []
+  | [] => if all_done sts then SDone k (DKids kd (map sdata sts)) sts else SRun k nn kd sts []
   | _ => SRun k nn kd sts rest
   end.
 
 Definition finish_kids (nn : bool) (k : N) (kd : kind) (r : kres * list ev) : res * list ev :=
   match r with
-  | (KFail e, evs) => handle nn k e evs
+  | (KFail e zs, evs) => handle nn k e zs evs
   | (KOk sts rest, evs) => (ROk (pack k nn kd sts rest), evs)
   end.
 
-(* [finish n]: the outcome of n's resolver is known; complete the value synchronously as far as
-   possible (execute_field after resolve_fn returned / complete_awaitable_value after the await) *)
-Fixpoint finish (n : node) : res * list ev :=
+Definition ghost (k : N) (zs : list st) : st := SDone k (DNull true) zs.
+
+(* children abandoned after a synchronous failure: with a running loop they go on in the
+   background, without one they are closed *)
+Definition abandon (lp : bool) (acc : list st) (k : N) (zs : list st) : list st :=
+  if lp then acc ++ [ghost k zs] else [].
+
+(* [finish lp n]: the outcome of n's resolver is known; complete the value synchronously as far as
+   possible (execute_field after resolve_fn returned / complete_awaitable_value after the await);
+   lp: an event loop is running *)
+Fixpoint finish (lp : bool) (n : node) : res * list ev :=
   match n with
   | Node k nn _ o ks =>
     match o with
-    | ORaise => handle nn k [] []
-    | ONull => if nn then handle nn k [] [] else (ROk (SDone k (DNull false)), [])
-    | OLeaf v => (ROk (SDone k (DLeaf v)), [])
+    | ORaise => handle nn k [] [] []
+    | ONull => if nn then handle nn k [] [] [] else (ROk (SDone k (DNull false) []), [])
+    | OLeaf v => (ROk (SDone k (DLeaf v) []), [])
     | OKids kd =>
         finish_kids nn k kd
           ((fix go (acc : list st) (rest : list node) : kres * list ev :=
@@ -127,10 +173,11 @@ Fixpoint finish (n : node) : res * list ev :=
                   else
                     let '(rc, e1) :=
                       if is_async c then (ROk (SPend c), [])
-                      else finish c in
+                      else finish lp c in
                     let e1' := ECall [key c] :: shift (key c) e1 in
                     match rc with
-                    | RFail e => (KFail (key c :: e), e1' ++ map EOrphan (pend_list acc))
+                    | RFail e zs =>
+                        (KFail (key c :: e) (abandon lp acc (key c) zs), e1' ++ map EOrphan (live_list acc))
                     | ROk s => let '(r2, e2) := go (acc ++ [s]) r in (r2, e1' ++ e2)
                     end
               end) [] ks)
@@ -138,21 +185,21 @@ Fixpoint finish (n : node) : res * list ev :=
   end.
 
 (* start a child: invoke the resolver; an awaitable result stays pending *)
-Definition start (c : node) : res * list ev :=
-  if is_async c then (ROk (SPend c), []) else finish c.
+Definition start (lp : bool) (c : node) : res * list ev :=
+  if is_async c then (ROk (SPend c), []) else finish lp c.
 
 (* the loop of execute_fields / complete_iterable_value / the reducer of execute_fields_serially *)
-Fixpoint start_from (kd : kind) (acc : list st) (rest : list node) : kres * list ev :=
+Fixpoint start_from (lp : bool) (kd : kind) (acc : list st) (rest : list node) : kres * list ev :=
   match rest with
   | [] => (KOk acc [], [])
   | c :: r =>
       if blocked kd acc then (KOk acc rest, [])
       else
-        let '(rc, e1) := start c in
+        let '(rc, e1) := start lp c in
         let e1' := ECall [key c] :: shift (key c) e1 in
         match rc with
-        | RFail e => (KFail (key c :: e), e1' ++ map EOrphan (pend_list acc))
-        | ROk s => let '(r2, e2) := start_from kd (acc ++ [s]) r in (r2, e1' ++ e2)
+        | RFail e zs => (KFail (key c :: e) (abandon lp acc (key c) zs), e1' ++ map EOrphan (live_list acc))
+        | ROk s => let '(r2, e2) := start_from lp kd (acc ++ [s]) r in (r2, e1' ++ e2)
         end
   end.
 
@@ -161,15 +208,43 @@ Inductive cres :=
 | CNone                                                   (* the pick does not name a pending awaitable *)
 | CSome (pre : list st) (r : res) (post : list st) (evs : list ev).
 
+(* a child that ended (ok or failed), as an entry of the parent's list *)
+Definition settle_res (c : N) (r : res) : st :=
+  match r with ROk s' => s' | RFail _ zs => ghost c zs end.
+
 (* [complete pi s]: the awaitable pending at pi (relative to s) completes *)
 Fixpoint complete (pi : pos) (s : st) {struct s} : option (res * list ev) :=
   match s with
   | SPend n =>
       match pi with
-      | [] => let '(r, e) := finish n in Some (r, EDone [] :: e)
+      | [] => let '(r, e) := finish true n in Some (r, EDone [] :: e)
       | _ => None
       end
-  | SDone _ _ => None
+  | SDone k d bg =>
+      (* background work: nobody observes its result; its events are background events *)
+      match pi with
+      | [] => None
+      | c :: pi' =>
+          match
+            (fix go (l : list st) : cres :=
+               match l with
+               | [] => CNone
+               | x :: r =>
+                   match (if skey x =? c then complete pi' x else None) with
+                   | Some (rx, e) => CSome [] rx r e
+                   | None =>
+                       match go r with
+                       | CNone => CNone
+                       | CSome pre rx post e => CSome (x :: pre) rx post e
+                       end
+                   end
+               end) bg
+          with
+          | CNone => None
+          | CSome pre rx post evs =>
+              Some (ROk (SDone k d (pre ++ settle_res c rx :: post)), map to_bg (shift c evs))
+          end
+      end
   | SRun k nn kd sts rest =>
       match pi with
       | [] => None
@@ -179,23 +254,22 @@ Fixpoint complete (pi : pos) (s : st) {struct s} : option (res * list ev) :=
                match l with
                | [] => CNone
                | x :: r =>
-                   if skey x =? c then
-                     match complete pi' x with
-                     | None => CNone
-                     | Some (rx, e) => CSome [] rx r e
-                     end
-                   else
-                     match go r with
-                     | CNone => CNone
-                     | CSome pre rx post e => CSome (x :: pre) rx post e
-                     end
+                   match (if skey x =? c then complete pi' x else None) with
+                   | Some (rx, e) => CSome [] rx r e
+                   | None =>
+                       match go r with
+                       | CNone => CNone
+                       | CSome pre rx post e => CSome (x :: pre) rx post e
+                       end
+                   end
                end) sts
           with
           | CNone => None
-          | CSome pre (RFail e) post evs =>
-              Some (handle nn k (c :: e) (shift c evs ++ map ECancel (pend_list (pre ++ post))))
+          | CSome pre (RFail e zs) post evs =>
+              Some (handle nn k (c :: e) (map skel pre ++ ghost c zs :: map skel post)
+                      (shift c evs ++ map ECancel (live_list (pre ++ post))))
           | CSome pre (ROk s') post evs =>
-              let '(r2, e2) := start_from kd (pre ++ s' :: post) rest in
+              let '(r2, e2) := start_from true kd (pre ++ s' :: post) rest in
               Some (finish_kids nn k kd (r2, shift c evs ++ e2))
           end
       end
@@ -206,23 +280,21 @@ Definition complete_kids (c : N) (pi : pos) : list st -> cres :=
     match l with
     | [] => CNone
     | x :: r =>
-        if skey x =? c then
-          match complete pi x with
-          | None => CNone
-          | Some (rx, e) => CSome [] rx r e
-          end
-        else
-          match go r with
-          | CNone => CNone
-          | CSome pre rx post e => CSome (x :: pre) rx post e
-          end
+        match (if skey x =? c then complete pi x else None) with
+        | Some (rx, e) => CSome [] rx r e
+        | None =>
+            match go r with
+            | CNone => CNone
+            | CSome pre rx post e => CSome (x :: pre) rx post e
+            end
+        end
     end.
 
 (* ------------------------------------------------------------------ runs *)
 
 (* the whole operation: the root is a nullable position (data) whose value is the root object;
-   [init root] = the synchronous part of execute() *)
-Definition init (root : node) : res * list ev := finish root.
+   [init lp root] = the synchronous part of execute(), lp: called inside a running event loop *)
+Definition init (lp : bool) (root : node) : res * list ev := finish lp root.
 
 (* a valid schedule: every pick names a pending awaitable; events accumulate in time order *)
 Inductive Run : st -> list pos -> st -> list ev -> Prop :=
@@ -231,10 +303,11 @@ Inductive Run : st -> list pos -> st -> list ev -> Prop :=
     complete pi s = Some (ROk s1, e1) -> Run s1 sched s2 e2 -> Run s (pi :: sched) s2 (e1 ++ e2).
 
 (* a run of the whole operation *)
-Definition Exec (root : node) (sched : list pos) (s : st) (evs : list ev) : Prop :=
-  exists s0 e0 e1, init root = (ROk s0, e0) /\ Run s0 sched s e1 /\ evs = e0 ++ e1.
+Definition Exec (lp : bool) (root : node) (sched : list pos) (s : st) (evs : list ev) : Prop :=
+  exists s0 e0 e1, init lp root = (ROk s0, e0) /\ Run s0 sched s e1 /\ evs = e0 ++ e1.
 
-Definition final (s : st) : Prop := pend s = [].
+(* the response is delivered: the root position is done (background work may remain) *)
+Definition final (s : st) : Prop := is_done s = true.
 
 (* executable driver: picks that do not name a pending awaitable are skipped and returned *)
 Fixpoint exec (s : st) (sched : list pos) : st * list ev * list pos :=
@@ -252,22 +325,21 @@ Fixpoint exec (s : st) (sched : list pos) : st * list ev * list pos :=
 Fixpoint desync (n : node) : node :=
   match n with Node k nn _ o ks => Node k nn false o (map desync ks) end.
 
-Definition sync_result (root : node) : res * list ev := init (desync root).
+Definition sync_result (root : node) : res * list ev := init false (desync root).
 
 (* ------------------------------------------------------------------ observations *)
 
 Definition errs (evs : list ev) : list (pos * pos) :=
-  flat_map (fun e => match e with EErr a o => [(a, o)] | _ => [] end) evs.
+  flat_map (fun e => match e with Ev TErr false a o => [(a, o)] | _ => [] end) evs.
 Definition nulled_positions (evs : list ev) : list pos := map fst (errs evs).   (* CollectedErrors._error_positions *)
 Definition error_paths (evs : list ev) : list pos := map snd (errs evs).        (* paths of the reported errors *)
 Definition cancelled (evs : list ev) : list pos :=
-  flat_map (fun e => match e with ECancel p => [p] | _ => [] end) evs.
+  flat_map (fun e => match e with Ev TCancel false p _ => [p] | _ => [] end) evs.
 Definition orphaned (evs : list ev) : list pos :=
-  flat_map (fun e => match e with EOrphan p => [p] | _ => [] end) evs.
+  flat_map (fun e => match e with Ev TOrphan false p _ => [p] | _ => [] end) evs.
 Definition calls (evs : list ev) : list pos :=
-  flat_map (fun e => match e with ECall p => [p] | _ => [] end) evs.
-Definition ev_pos (e : ev) : pos :=
-  match e with ECall p | EDone p | ECancel p | EOrphan p => p | EErr a _ => a end.
+  flat_map (fun e => match e with Ev TCall _ p _ => [p] | _ => [] end) evs.
+Definition ev_pos (e : ev) : pos := match e with Ev _ _ p _ => p end.
 
 (* positions that are null in the data because of an error (the visible nulled positions) *)
 Fixpoint dnulls (d : data) : list pos :=
@@ -284,7 +356,7 @@ Fixpoint dnulls (d : data) : list pos :=
   end.
 
 Definition result_data (s : st) : option data :=
-  match s with SDone _ d => Some d | _ => None end.
+  match s with SDone _ d _ => Some d | _ => None end.
 
 (* ------------------------------------------------------------------ the tree's denotation *)
 
@@ -339,6 +411,7 @@ Fixpoint asyncs (n : node) : nat :=
 
 (* ------------------------------------------------------------------ exhaustive exploration (tests) *)
 
+(* all maximal schedules: until nothing is pending (background work included) *)
 Fixpoint explore (fuel : nat) (s : st) (evs : list ev) : list (st * list ev) :=
   match fuel with
   | O => [(s, evs)]
